@@ -2,6 +2,7 @@ package rules
 
 import (
 	"fmt"
+	"go/constant"
 	"strings"
 
 	"golang.org/x/tools/go/ssa"
@@ -12,7 +13,7 @@ import (
 func init() { Registry["C16"] = checkC16 }
 
 func checkC16(p *core.Prog, r *core.Report) {
-	r.Explanation = "Decides structural necessary conditions of state-preserving compaction: (R1) the replacement snapshot is published (rewrite.aof.tmp renamed into place) before any compaction input is removed, and during a compaction files are removed only in its commit step; (R2) compactions are serialised by a test-and-set of isRewriting under the Aof mutex, cleared again on every exit (deferred function); (R3) an append file becomes a compaction input only if its index is strictly behind the current append file's (wrap-aware); (R4) the compaction callback drops a record only when its database is gone or LockDB.HasLock says the hold no longer exists - every other record is appended, with its value blob iff it announces one; (R5) the commit step runs only after the load returned no error, and the temporary file is flushed and closed before that; (R6) replay quiescence - the condition the start-up compaction waits for - is decided (flush waiters released, WaitFlushAofChannel returning without waiting) only on paths that read the replay channels' queue counters, because a channel that was handed records but has not woken up yet is not in the active count (a real defect found by this rule's subject was repaired); (R7) every list of log files built from FindAofFiles puts the snapshot before the append files (the list is the read and re-write order). (R8) LockDB.HasLock, the classifier compaction uses, answers \"gone\" for a record that is not a LOCK record only when the key has no manager, nothing is held, or no hold with the record's id exists. (R9) a compaction computes its input list once, before the load; the commit does not recompute it. NOT decided: equality of the recovered state before/after, appends racing a compaction, every intermediate directory image."
+	r.Explanation = "Decides structural necessary conditions of state-preserving compaction: (R1) the replacement snapshot is published (rewrite.aof.tmp renamed into place) before any compaction input is removed, and during a compaction files are removed only in its commit step; (R2) compactions are serialised by a test-and-set of isRewriting under the Aof mutex, cleared again on every exit (deferred function); (R3) an append file becomes a compaction input only if its index is strictly behind the current append file's (wrap-aware); (R4) the compaction callback drops a record only when its database is gone or LockDB.HasLock says the hold no longer exists - every other record is appended, with its value blob iff it announces one; (R5) the commit step runs only after the load returned no error, and the temporary file is flushed and closed before that; (R6) replay quiescence - the condition the start-up compaction waits for - is decided (flush waiters released, WaitFlushAofChannel returning without waiting) only on paths that read the replay channels' queue counters, because a channel that was handed records but has not woken up yet is not in the active count (a real defect found by this rule's subject was repaired); (R7) every list of log files built from FindAofFiles puts the snapshot before the append files (the list is the read and re-write order). (R8) LockDB.HasLock, the classifier compaction uses, answers \"gone\" for a record that is not a LOCK record only when the key has no manager, nothing is held, or no hold with the record's id exists. (R9) a compaction computes its input list once, before the load; the commit does not recompute it. (R10) the start-up compaction is started only after the replay of the loaded records has been waited for. (R11) the temporary snapshot and its value file are removed before they are opened for writing (a leftover of an interrupted compaction is never extended; a real defect was repaired). NOT decided: equality of the recovered state before/after, appends racing a compaction, every intermediate directory image."
 	r.Assumptions = []string{"Go type checker, go/ssa and VTA call graph are correct for /repo", "os.Rename replaces its target atomically"}
 	c16R1(p, r)
 	c16R2(p, r)
@@ -24,6 +25,7 @@ func checkC16(p *core.Prog, r *core.Report) {
 	c16R8(p, r)
 	c16R9(p, r)
 	c16R10(p, r)
+	c16R11(p, r)
 }
 
 // reachesRemove: does fn (transitively, by static calls in the module) call os.Remove / os.RemoveAll?
@@ -41,6 +43,9 @@ func reachesRemove(p *core.Prog, fn *ssa.Function, seen map[*ssa.Function]bool) 
 				continue
 			}
 			if c.Pkg != nil && c.Pkg.Pkg.Path() == "os" && (c.Name() == "Remove" || c.Name() == "RemoveAll") {
+				if removesTmpOutput(ins) {
+					continue // clearing a leftover of the compaction's own temporary output retires no input
+				}
 				return true
 			}
 			if core.InModule(c) && recvName(c) == "Aof" && len(seen) <= 2 && reachesRemove(p, c, seen) {
@@ -51,6 +56,41 @@ func reachesRemove(p *core.Prog, fn *ssa.Function, seen map[*ssa.Function]bool) 
 	for _, af := range fn.AnonFuncs {
 		if reachesRemove(p, af, seen) {
 			return true
+		}
+	}
+	return false
+}
+
+// removesTmpOutput: os.Remove(filepath.Join(..., "rewrite.aof.tmp[.dat]")) - the
+// path's constant component names the compaction's temporary output.
+func removesTmpOutput(ins ssa.Instruction) bool {
+	args := core.CallArgs(ins)
+	if len(args) == 0 {
+		return false
+	}
+	join, ok := args[0].(*ssa.Call)
+	if !ok || join.Call.StaticCallee() == nil || join.Call.StaticCallee().Name() != "Join" || len(join.Call.Args) != 1 {
+		return false
+	}
+	sl, ok := join.Call.Args[0].(*ssa.Slice)
+	if !ok {
+		return false
+	}
+	al, ok := sl.X.(*ssa.Alloc)
+	if !ok {
+		return false
+	}
+	for _, u := range *al.Referrers() {
+		ia, ok := u.(*ssa.IndexAddr)
+		if !ok {
+			continue
+		}
+		for _, uu := range *ia.Referrers() {
+			if st, ok := uu.(*ssa.Store); ok {
+				if c, ok := st.Val.(*ssa.Const); ok && c.Value != nil && c.Value.Kind() == constant.String && strings.Contains(constant.StringVal(c.Value), "rewrite.aof.tmp") {
+					return true
+				}
+			}
 		}
 	}
 	return false
@@ -813,5 +853,77 @@ func c16R10(p *core.Prog, r *core.Report) {
 	}
 	if n == 0 {
 		r.Fail("C16/R10: no start of the compaction found in a loading function")
+	}
+}
+
+// c16R11: the compaction writes its output to rewrite.aof.tmp, which is
+// opened for appending. A file of that name left behind by an interrupted or
+// failed compaction must not be extended: the new snapshot would carry every
+// kept record twice (re-entrant depth doubles on the restart after next). The
+// function that opens the temporary snapshot for writing removes the record
+// file and its value file first.
+func c16R11(p *core.Prog, r *core.Report) {
+	const rule = "C16/R11"
+	r.Rule(rule, "the compaction's output rewrite.aof.tmp (and its value file) is removed before it is opened for writing: a leftover of an interrupted compaction is never extended", 1)
+	n := 0
+	for _, fn := range p.FuncsIn("server") {
+		if fn.Blocks == nil {
+			continue
+		}
+		opens := false
+		for _, b := range fn.Blocks {
+			for _, ins := range b.Instrs {
+				if c := core.StaticCallee(ins); c != nil && c.Name() == "NewAofFile" {
+					opens = true
+				}
+			}
+		}
+		if !opens {
+			continue
+		}
+		name := core.FuncName(fn)
+		ex := core.NewExplorer(p, core.Hooks{
+			Instr: func(x *core.X) {
+				if !x.Top() {
+					return
+				}
+				recordVarargs(x)
+				if isOsCall(x.Ins, "Remove") {
+					x.Set("rm:"+core.Plain(pathArg(x, x.Ins, 0)), "1")
+					return
+				}
+				c := core.StaticCallee(x.Ins)
+				if c == nil || c.Name() != "NewAofFile" {
+					return
+				}
+				path := core.Plain(pathArg(x, x.Ins, 1))
+				if !strings.Contains(path, "rewrite.aof.tmp") {
+					return
+				}
+				if m, ok := constArg(x.Ins, 2); !ok || m == 0 {
+					return // read-only
+				}
+				if x.Get("seen") == "1" {
+					return
+				}
+				x.Set("seen", "1")
+				n++
+				key := name + ": temporary snapshot starts empty"
+				dat := strings.Replace(path, "rewrite.aof.tmp", "rewrite.aof.tmp.dat", 1)
+				switch {
+				case x.Get("rm:"+path) != "1":
+					r.Violate(rule, key, x.Pos(), "rewrite.aof.tmp is opened for appending without being removed first: a file left by a compaction that was interrupted after writing it (or that failed on a read error) is extended, rewrite.aof then carries every kept record twice and a re-entrant hold comes back with twice its depth after the restart after next", x.St.Trace)
+				case x.Get("rm:"+dat) != "1":
+					r.Violate(rule, key, x.Pos(), "the value file rewrite.aof.tmp.dat of a leftover temporary snapshot is not removed before the new one is written: values are appended behind the leftover's and no longer line up with their records", x.St.Trace)
+				default:
+					r.Hold(rule, key, x.Pos(), "record and value file removed before the open")
+				}
+			},
+		})
+		ex.NoHist = true
+		ex.Run(fn, nil)
+	}
+	if n == 0 {
+		r.Fail("C16/R11: no function opens rewrite.aof.tmp for writing")
 	}
 }
